@@ -91,3 +91,15 @@ package rsyncd
 // C14: the daemon maps the client's options onto the receiver the same way the client does.
 //@ func (*rsyncd.Server).handleConnReceiver
 //@   at[C14] (*receiver.Transfer).ReceiveFileList: assert [options-mapped-one-to-one] arg0.Opts.PreserveUid == (opts.preserve_uid != 0) && arg0.Opts.PreserveGid == (opts.preserve_gid != 0) && arg0.Opts.PreserveLinks == (opts.preserve_links != 0) && arg0.Opts.PreservePerms == (opts.preserve_perms != 0) && arg0.Opts.PreserveDevices == (opts.preserve_devices != 0) && arg0.Opts.PreserveSpecials == (opts.preserve_specials != 0) && arg0.Opts.PreserveTimes == (opts.preserve_mtimes != 0) && arg0.Opts.AlwaysChecksum == (opts.always_checksum != 0) && arg0.Opts.IgnoreTimes == (opts.ignore_times != 0) && arg0.Opts.DryRun == (opts.dry_run != 0) && arg0.Opts.DeleteMode == (opts.delete_mode != 0)
+
+// ---------------------------------------------------------------- C14: who reads the filter list
+// A receiving server reads the filter list exactly when it deletes (the
+// sending client sends it exactly then); a sending server always reads it
+// (the receiving client always sends it).
+//@ ghost smark: int
+//@ func (*rsyncd.Server).handleConnReceiver
+//@   at[C14] progress.NewPrinter: set ghost.smark = select(ghost.rpos, data(c.Reader))
+//@   at[C14] (*receiver.Transfer).ReceiveFileList: assert [filter-list-read-exactly-when-deleting] arg0.Conn == c && select(ghost.rpos, data(c.Reader)) == ite(opts.delete_mode != 0, filterListEnd(data(c.Reader), ghost.smark), ghost.smark)
+//@ func (*rsyncd.Server).handleConnSender
+//@   at[C14] progress.NewPrinter: set ghost.smark = select(ghost.rpos, data(c.Reader))
+//@   at[C14] (*sender.Transfer).Do: assert [filter-list-always-read] arg0.Conn == c && select(ghost.rpos, data(c.Reader)) == filterListEnd(data(c.Reader), ghost.smark)
